@@ -14,8 +14,9 @@ MARGIN = 30 * MS               # margin of the spec-level predicates
 OPC = {"fail": 0, "succ": 1, "query": 2, "ban": 3, "unban": 4, "cleanup": 5, "bladd": 6, "blrm": 7, "wladd": 8,
        "wlrm": 9, "allowed": 10, "blcleanup": 11, "allowip": 12, "rlcleanup": 13, "hs": 14, "restart": 15}
 DUR_OPS = ("ban", "bladd")
-CURRENT = (1, 1, 0, 0)        # [cond_unban, keep_stronger, late_goroutines, anon_resets]
-# explanations of an observation by a defect the model keeps as a pinned variant: (variant flags, finding keys)
+CURRENT = (1, 1, 0, 0, 0)     # [cond_unban, keep_stronger, late_goroutines, anon_resets, first_match]
+# explanations of an observation by a defect the model keeps as a pinned variant: ([variant flags ...], finding keys);
+# with several flag tuples an answer may come from any of them (first-match lookup: Go map order decides per call)
 EXPLAIN = []
 for _anon in (0, 1):
     for _keep in (1, 0):
@@ -23,7 +24,9 @@ for _anon in (0, 1):
             _keys = ([] if _keep else ["ban-weakened"]) + ([] if _cond else ["unban-erases-reban"]) + \
                     (["anon-registration-resets-failures"] if _anon else [])
             if _keys:
-                EXPLAIN.append(((_cond, _keep, _late, _anon), _keys))
+                EXPLAIN.append(([(_cond, _keep, _late, _anon, 0)], _keys))
+# (the first-match blacklist lookup, variant flag 5, is not explained through model runs: which record it meets first
+#  depends on the Go map iteration of each call; see shadow_situation)
 EXPLAIN.sort(key=lambda e: len(e[1]))
 RACES = {
     "ban": ("unban-erases-reban", "BanIP(ip,3ms); sleep 8ms; IsBanned(ip)=false; BanIP(ip,1h); sleep 5ms; IsBanned(ip)"),
@@ -35,6 +38,7 @@ RACES = {
 KEY_TEXT = {
     "ban-weakened": "a ban in force is replaced by a weaker one (banIP overwrites unconditionally)",
     "unban-erases-reban": "the unban spawned by IsBanned/IsAllowed on an expired entry erases an entry re-established meanwhile",
+    "expired-exact-entry-shadows-cidr": "IsAllowed judges by the first matching blacklist record only (exact key, then the ranges in map order): a lapsed one hides an entry in force",
     "anon-registration-resets-failures": "handleFirstConnection calls RecordSuccess: registering a new anonymous client, which proves no credential, clears the address's failure record",
 }
 
@@ -287,9 +291,10 @@ def gen_restart(rng, cfg):
     """the lists are persisted: permanent / temporary (time left, lapsed) exact and range entries, whitelist entries,
     restarts (every component rebuilt over the same storage) at various points"""
     s = Script(rng)
-    exact = [5, 6, 7]                      # exact entries only on addresses of group 0
+    exact = rng.choice([[5, 6, 7], [5, 40, 7], [41, 6, 40]])   # exact entries inside and outside the range below
+    exact = list(exact)
     rng.shuffle(exact)
-    rk = 1002                              # range entry 10.1.0.32/28: addresses 40, 41 (never given exact entries)
+    rk = rng.choice([1002, 1002, 2001])    # range entry 10.1.0.32/28 (or the /27 around it): addresses 40, 41
     durs = [0, 0, 120, 170, 420, 620]
     s.op("bladd", exact[0], rng.choice(durs))
     if rng.random() < 0.8:
@@ -324,6 +329,37 @@ def gen_restart(rng, cfg):
     return s.ops
 
 
+def gen_overlap(rng, cfg):
+    """several entries matching one address: exact 40 / the /28 with key 1002 (32..47) / the /27 with key 2001 (32..63),
+    with different deadlines (lapsed, time left, permanent), edited, collected and reloaded; probes inside and outside"""
+    s = Script(rng)
+    keys = [40, 1002, 2001, 1003, 50]
+    durs = [0, 70, 70, 120, 170, 420, 620]
+    for k in rng.sample(keys, rng.randrange(2, 5)):
+        s.op("bladd", k, rng.choice(durs))
+    for _ in range(rng.randrange(3, 8)):
+        s.wait(rng.choice([1, 1, 2, 3, 4]))
+        for a in rng.sample([40, 41, 50, 60, 70], rng.randrange(1, 4)):
+            s.op("hs", a, rng.choice([0, 1])) if rng.random() < 0.2 else s.op("allowed", a)
+        r = rng.random()
+        if r < 0.3:
+            s.op("bladd", rng.choice(keys), rng.choice(durs))
+        elif r < 0.4:
+            s.op("blrm", rng.choice(keys))
+        elif r < 0.5:
+            s.op("blcleanup")
+        elif r < 0.6:
+            s.op("restart", 0)
+        elif r < 0.65:
+            s.op("wladd", rng.choice([41, 1003]))
+        elif r < 0.7:
+            s.op("wlrm", rng.choice([41, 1003]))
+    s.wait(rng.choice([1, 9]))
+    for a in (40, 41, 50, 60):
+        s.op("allowed", a)
+    return s.ops
+
+
 def gen_restart_mix(rng, cfg):
     """failures, bans and admissions with a restart in between (memory-only state)"""
     s = Script(rng)
@@ -345,7 +381,7 @@ def gen_restart_mix(rng, cfg):
     return s.ops
 
 
-GENS = [("restart", gen_restart, 4), ("restartmix", gen_restart_mix, 1), ("firstfail", gen_firstfail, 2), ("anon", gen_anon, 2), ("lockout", gen_lockout, 5), ("mix", gen_mix, 6), ("perm", gen_perm, 2), ("blacklist", gen_blacklist, 3),
+GENS = [("overlap", gen_overlap, 4), ("restart", gen_restart, 4), ("restartmix", gen_restart_mix, 1), ("firstfail", gen_firstfail, 2), ("anon", gen_anon, 2), ("lockout", gen_lockout, 5), ("mix", gen_mix, 6), ("perm", gen_perm, 2), ("blacklist", gen_blacklist, 3),
         ("bucket", gen_bucket, 3), ("reban", gen_reban, 2)]
 
 
@@ -409,8 +445,8 @@ def predict_all(cases, outs, flags):
 # the property's own predicates, evaluated on the real code's answers with measured times (conservative
 # margins: a requirement is only imposed well inside an interval, a justification accepted well outside)
 # ------------------------------------------------------------------------------------------------
-def cidr_of(ip):
-    return 1000 + ip // 16 if ip < 1000 else ip
+def keys_of(ip):
+    return (ip, 1000 + ip // 16, 2000 + ip // 32) if ip < 1000 else (ip,)
 
 
 GLOBAL_OPS = ("cleanup", "blcleanup", "rlcleanup", "restart")
@@ -434,15 +470,14 @@ def spec_check(case, obs):
                     return
 
     for ip in ips:
-        keys = (ip, cidr_of(ip))
+        keys = keys_of(ip)
         fails = []            # indices of failures since the last verified success / restart
         life = 0              # failures since the last success, clean-up (may drop the record and its total) or restart
         total = 0             # failures ever (liberal justification of a permanent ban)
-        must = []             # [from_t, until_t or None, why, restarted]: ban required in [from, until]
+        must = []             # [from_t, until_t or None, why]: ban required in [from, until] (process-local: a restart clears it)
         causes = []           # (from_t, until_t or None): ban justified in [from, until]
         wl = {}               # key -> bool
         ent = {}              # key -> (t0, t1, dur ns): the entry in force for that key according to the admin calls
-        had_exact = False     # an exact entry was added and not removed by the admin (it may linger, expired)
         blcauses = []
         adm = []              # (t0, t1, tokens admitted) since the last restart
         for i, (o, x) in enumerate(zip(ops, obs)):
@@ -455,27 +490,25 @@ def spec_check(case, obs):
                 bad.append(("gate-order", i, "handshake refused at gate %d still consulted the credential store %d time(s)" % (x["r"] + 1, x["cc"])))
             # ---- requirements on this step
             if mine and name in ("query", "hs"):
-                for frm, until, why, restarted in must:
+                for frm, until, why in must:
                     if x["t0"] >= frm and (until is None or x["t1"] <= until):
                         ok = x["r"] == 1 if name == "query" else x["r"] in (0, 1)
                         if not ok:
-                            if restarted:
-                                bad.append(("ban-lost-on-restart", i, "address must be refused (%s) but after a restart step %d %s answered %d" % (why, i, name, x["r"])))
-                            else:
-                                bad.append(("locked-out", i, "address must be refused (%s) but step %d %s answered %d" % (why, i, name, x["r"])))
+                            bad.append(("locked-out", i, "address must be refused (%s) but step %d %s answered %d" % (why, i, name, x["r"])))
                         break
                 if x["r"] == 1:
                     if not any(x["t1"] >= frm and (until is None or x["t0"] <= until) for frm, until in causes):
                         bad.append(("false-refusal", i, "address refused as banned at step %d without %d failures in a window, a lifetime total of %d, or a manual ban in force" % (i, cfg["maxf"], cfg["perm"])))
             if mine and name in ("allowed", "hs"):
                 refused = x["r"] == 0
-                if not wl.get(keys[0]) and not wl.get(keys[1]) and not refused:
+                if not any(wl.get(k) for k in keys) and not refused:
                     for k in keys:
                         if k in ent:
                             a0, a1, d = ent[k]
                             if x["t0"] >= a1 and (d == 0 or x["t1"] <= a0 + d - MARGIN):
-                                if k != ip and had_exact:
-                                    bad.append(("expired-exact-entry-shadows-cidr", i, "address %d is inside the blacklisted range (key %d) but an exact entry for it, added earlier and possibly expired, is found first: let through at step %d" % (ip, k, i)))
+                                others = [k2 for k2 in keys if k2 != k and k2 in ent]
+                                if others:
+                                    bad.append(("expired-exact-entry-shadows-cidr", i, "address %d is covered by the entry with key %d, in force, but was let through at step %d; other matching entries (keys %s) were added earlier and may have lapsed" % (ip, k, i, others)))
                                 else:
                                     bad.append(("blacklist", i, "blacklisted (%s), not whitelisted address %d was let through at step %d" % (
                                         "range entry" if k != ip else "exact entry", ip, i)))
@@ -486,10 +519,10 @@ def spec_check(case, obs):
             if name == "cleanup":
                 life = 0
             elif name == "restart":
-                # memory-only state is gone; the persisted lists (ent, wl) stay.  The limiter starts afresh.
+                # failure records and bans are process-local by design: their requirements end here, exactly as the
+                # model's CRestart drops them; the persisted lists (ent, wl) stay.  The limiter starts afresh.
                 fails, life = [], 0
-                for m in must:
-                    m[3] = True
+                must = []
                 bucket_bound(ip, adm)
                 adm = []
             if name in GLOBAL_OPS:
@@ -500,10 +533,10 @@ def spec_check(case, obs):
                 total += 1
                 life += 1
                 if life >= cfg["perm"]:
-                    must.append([x["t1"], None, "lifetime total of %d failures reached at step %d" % (cfg["perm"], i), False])
+                    must.append([x["t1"], None, "lifetime total of %d failures reached at step %d" % (cfg["perm"], i)])
                 k = cfg["maxf"]
                 if len(fails) >= k and x["t1"] - obs[fails[-k]]["t0"] < W - MARGIN:
-                    must.append([x["t1"], x["t0"] + D - MARGIN, "%d failures within the window ending at step %d" % (k, i), False])
+                    must.append([x["t1"], x["t0"] + D - MARGIN, "%d failures within the window ending at step %d" % (k, i)])
                 if len(fails) >= k and x["t0"] - obs[fails[-k]]["t1"] < W + MARGIN:
                     causes.append((x["t0"], x["t1"] + D + MARGIN))
                 if total >= cfg["perm"]:
@@ -515,19 +548,16 @@ def spec_check(case, obs):
                 life = 0
             elif mine and name == "ban":
                 d = o["arg"] * MS
-                must.append([x["t1"], None if d == 0 else x["t0"] + d - MARGIN, "manual ban at step %d" % i, False])
+                must.append([x["t1"], None if d == 0 else x["t0"] + d - MARGIN, "manual ban at step %d" % i])
                 causes.append((x["t0"], None if d == 0 else x["t1"] + d + MARGIN))
             elif mine and name == "unban":
                 must = []
             elif name == "bladd":
                 d = o["arg"] * MS
                 ent[key] = (x["t0"], x["t1"], d)
-                had_exact = had_exact or key == ip
                 blcauses.append((x["t0"], None if d == 0 else x["t1"] + d + MARGIN))
             elif name == "blrm":
                 ent.pop(key, None)
-                if key == ip:
-                    had_exact = False
             elif name == "wladd":
                 wl[key] = True
             elif name == "wlrm":
@@ -538,6 +568,28 @@ def spec_check(case, obs):
                 adm.append((x["t0"], x["t1"], 1))
         bucket_bound(ip, adm)
     return bad
+
+
+def shadow_situation(case, obs, pred, i):
+    """step i is an IsAllowed decision on which the real code is MORE permissive than the repaired model while the
+    address has at least two matching blacklist entries on record (added, not removed by the admin; some may have
+    lapsed): the signature of the first-match lookup, whatever the map order and the goroutine timing"""
+    o = case["ops"][i]
+    if o["op"] == "allowed":
+        if not (obs[i] == 1 and pred[i] == 0):
+            return False
+    elif o["op"] == "hs":
+        if not (obs[i] != 0 and pred[i] == 0):
+            return False
+    else:
+        return False
+    ent = set()
+    for q in case["ops"][:i]:
+        if q["op"] == "bladd":
+            ent.add(q["ip"])
+        elif q["op"] == "blrm":
+            ent.discard(q["ip"])
+    return len([k for k in keys_of(o["ip"]) if k in ent]) >= 2
 
 
 def load_corpus():
@@ -584,6 +636,7 @@ def run(ctx, only_cases=None):
         cases = load_corpus() + gen_cases(ctx, 6000 if thorough else 260)
         trials = 200 if thorough else 40
         cases += [{"kind": "race", "which": w, "trials": trials} for w in ("ban", "bl", "perm", "permfail", "blperm")]
+        cases += [{"kind": "shadow", "which": w, "trials": trials} for w in ("exact", "range")]
         for entry in ("allowip", "allowipburst", "allowtunnel"):
             cases.append({"kind": "burst", "entry": entry, "goroutines": 32, "keys": 60 if thorough else 25,
                           "cfg": {"rate": ctx.rng.choice([7, 13]), "burst": ctx.rng.choice([1, 2, 3]), "ttl_ms": 60000}})
@@ -594,6 +647,7 @@ def run(ctx, only_cases=None):
 
     # ---- (iii) direct replays of the two schedules on the real code
     ambiguous_trials = 0
+    probe = {}
     for c, o in zip(cases, outs):
         if c["kind"] == "race":
             ambiguous_trials += o["pre_not_expired"]
@@ -601,6 +655,15 @@ def run(ctx, only_cases=None):
                 key, what = RACES[c["which"]]
                 ctx.violation(key, "%s: the entry established right after the query was gone in %d of %d trials (the removal "
                               "spawned by the query on the expired entry deleted it)" % (what, o["lost"], o["trials"]),
+                              {"case": c, "observed": o})
+        elif c["kind"] == "shadow":
+            ambiguous_trials += o["pre_not_expired"]
+            probe[c["which"]] = "first-match" if o["lost"] > 0 else "any-active"
+            if o["lost"] > 0:
+                what = ("AddToBlacklist(10.2.x.32/28, permanent); AddToBlacklist(10.2.x.40, 3ms); sleep 8ms; IsAllowed(10.2.x.40)" if c["which"] == "exact" else
+                        "AddToBlacklist(10.2.x.32/27, permanent); AddToBlacklist(10.2.x.32/28, 3ms); sleep 8ms; IsAllowed(10.2.x.40)")
+                ctx.violation("expired-exact-entry-shadows-cidr", "%s: the address was let through in %d of %d trials although the permanent range "
+                              "entry covers it (IsAllowed judges by the first matching record only)" % (what, o["lost"], o["trials"]),
                               {"case": c, "observed": o})
         elif c["kind"] == "burst":
             cf = c["cfg"]
@@ -641,10 +704,14 @@ def run(ctx, only_cases=None):
                 continue
             # is the observation explained by one of the two defects of the pinned tree?
             keys = None
-            for flags, ks in EXPLAIN:
-                if flags not in alt:
-                    alt[flags] = predict_all(tcs, tos, flags)
-                _p2, _m2, sets2 = alt[flags][ci]
+            if diff and shadow_situation(c, obs, pred, diff[0]):
+                # everything after the first divergence is its consequence (a handshake let through records failures, ...)
+                keys = ["expired-exact-entry-shadows-cidr"]
+            for flagsl, ks in ([] if keys else EXPLAIN):
+                for flags in flagsl:
+                    if flags not in alt:
+                        alt[flags] = predict_all(tcs, tos, flags)
+                sets2 = [set().union(*(alt[flags][ci][2][k] for flags in flagsl)) for k in range(len(obs))]
                 if all(obs[k] in sets2[k] for k in range(len(obs))):
                     # several pinned variants may fit one observation: an explanation made only of recorded
                     # findings wins (it is no evidence of anything new), otherwise the smallest one
@@ -737,7 +804,7 @@ def run(ctx, only_cases=None):
         "steps_total": steps, "steps_compared_robust": robust_steps, "steps_ambiguous_not_compared": steps - robust_steps,
         "race_trials": sum(o["trials"] for o in races), "race_trials_ambiguous": ambiguous_trials,
         "race_trials_entry_lost": sum(o["lost"] for o in races),
-        "inflight_schedules": len(infl),
+        "inflight_schedules": len(infl), "blacklist_lookup_probe": probe,
         "burst_first_request_rounds": sum(len(o["admitted"]) for c, o in zip(cases, outs) if c["kind"] == "burst"), "model_vs_impl_cases": len(tcs), "model_vs_impl_mismatches": len(mism),
         "cases_explained_by_pinned_variant": explained, "cases_with_recorded_predicate_findings": known_spec, "impl_property_failures": nfail,
         "input_distribution": dist, "generated_file_changed": gen_changed,
